@@ -153,10 +153,10 @@ def record_strategy(fmt, W=12, canonical=True, dot_score=False):
     if fmt == "pairs":
         return st.tuples(anyid, anyid, uint_text(9), anyid, uint_text(9), st.sampled_from("+-"), st.sampled_from("+-")).map(list)
     if fmt == "fasta2":
-        desc = st.one_of(st.just(""), ident(1, 8, NAMEISH + " ").map(lambda s: " " + s))
+        desc = st.one_of(st.just(""), ident(1, 8, NAMEISH + " >@").map(lambda s: " " + s))
         return st.tuples(st.tuples(anyid, desc).map("".join), st.one_of(st.just(""), seq_text(0, W * 4), seq_text(1, 3))).map(list)
     if fmt == "fastaml":
-        desc = st.one_of(st.just(""), ident(1, 8, NAMEISH + " ").map(lambda s: " " + s))
+        desc = st.one_of(st.just(""), ident(1, 8, NAMEISH + " >@").map(lambda s: " " + s))
         return st.tuples(st.tuples(anyid, desc).map("".join), st.one_of(seq_text(1, W * 4), seq_text(1, 3))).map(list)
     if fmt == "fastq":
         def build(nm, n, plus_name, data):
